@@ -140,6 +140,23 @@ def step (st : St) (line : String) : St × String :=
     match nats? [p, a, b] with
     | some [p, a, b] => if a = 0 ∨ b = 0 then bad else (st, "ok " ++ F64.toStr (cosArg p a b))
     | _ => bad
+  -- Rust-level entry points (the rust-harness `twin` module issues them on a KmerMinHash and a KmerMinHashBTree)
+  | ["rsim", a, b, ia, ds] =>
+    match two st a b, bool? ia, bool? ds with
+    | some (s, o), some ia, some ds => ans st (Cmp.similarity s o ia ds) simStr
+    | _, _, _ => bad
+  | ["rjac", a, b] =>
+    match two st a b with
+    | some (s, o) => ans st (Cmp.jaccard s o) F64.toStr
+    | none => bad
+  | ["rang", a, b] =>
+    match two st a b with
+    | some (s, o) => ans st (angularParts s o) (fun t => angStr t.1 t.2.1 t.2.2)
+    | none => bad
+  | ["isz", a, b] =>
+    match two st a b with
+    | some (s, o) => ans st (Cmp.intersectionSize s o) (fun p => s!"{p.1} {p.2}")
+    | none => bad
   | ["compat", a, b] =>
     match two st a b with
     | some (s, o) => (st, s!"ok {b2s (isCompatible s o)}")
@@ -185,6 +202,16 @@ def step (st : St) (line : String) : St × String :=
   | ["mc", a, b, ds] =>
     match two st a b, bool? ds with
     | some (s, o), some ds => ans st (maxContainment s o ds) contStr
+    | _, _ => bad
+  | ["smc", a, b, ds] =>
+    -- SourmashSignature.max_containment: pass-through
+    match two st a b, bool? ds with
+    | some (s, o), some ds => ans st (maxContainment s o ds) contStr
+    | _, _ => bad
+  | ["sac", a, b, ds] =>
+    -- SourmashSignature.avg_containment: pass-through
+    match two st a b, bool? ds with
+    | some (s, o), some ds => ans st (avgContainment s o ds) (fun p => avgStr p.1 p.2)
     | _, _ => bad
   | ["ac", a, b, ds] =>
     match two st a b, bool? ds with
